@@ -131,6 +131,12 @@ def run_history(res, ctx, root, rng, hidx, max_steps, con):
         bytes(data).decode("utf-8")
         f.write_bytes(bytes(data))
         res.cell("start:multibyte-across-chunk-offsets")
+    twin = None
+    if rng.random() < 0.15 and f.stat().st_size:
+        # the file has a second name (hard link): whichever name a later run uses, it builds on what the earlier runs declared
+        twin = d / ("second-name-of-" + f.name)
+        os.link(f, twin)
+        res.cell("start:file-with-a-second-hard-link")
     merge_history = rng.random() < 0.4
     dot_always = rng.random() < 0.12
     steps = rng.randint(2, max_steps)
@@ -279,6 +285,10 @@ def run_history(res, ctx, root, rng, hidx, max_steps, con):
                 return  # tree state is no longer the model's (stray .license): stop this history
             continue
         ok_steps += 1
+        if twin is not None and twin.read_bytes() != f.read_bytes():
+            res.violation("annotated-file-replaced:other-name-keeps-old-content", f"step {s}: the file's second name (hard link) still holds the "
+                          "old content: the declarations of this run are lost to whoever uses that name", args=args + opts)
+            return
         cur, rr = annot.read_back(root)
         if cur is None or rel not in cur:
             if f.stat().st_size == 0:
